@@ -31,10 +31,13 @@ from collections import Counter
 from typing import Any, Callable
 
 ROOT = os.path.dirname(os.path.dirname(os.path.abspath(__file__)))
-REPLAY_DIR = os.path.join(ROOT, "replays")
+# VERIF_OUT_DIR redirects everything a run writes (used by tools/mutate.py so that runs
+# against mutated copies of the repository never touch the committed evidence/replays).
+_OUT = os.environ.get("VERIF_OUT_DIR") or ROOT
+REPLAY_DIR = os.path.join(_OUT, "replays")
 KNOWN_FILE = os.path.join(ROOT, "KNOWN_FINDINGS.txt")
-EVIDENCE_DIR = os.path.join(ROOT, "evidence")
-WORK_DIR = os.path.join(ROOT, ".work")
+EVIDENCE_DIR = os.path.join(_OUT, "evidence")
+WORK_DIR = os.path.join(_OUT, ".work")
 
 
 class Violation(Exception):
@@ -57,10 +60,36 @@ class Rejected(Exception):
         self.exc = exc
 
 
+class _CallTimeout(BaseException):
+    pass
+
+
+def _on_alarm(signum, frame):
+    raise _CallTimeout()
+
+
+SUT_TIMEOUT_S = float(os.environ.get("VERIF_SUT_TIMEOUT", "120"))
+
+
 def sut(fn, *args, allowed=(), **kwargs):
-    """Call the code under test; its exceptions are violations unless `allowed`."""
+    """Call the code under test; its exceptions are violations unless `allowed`.
+
+    A single call that runs longer than SUT_TIMEOUT_S (a hang, or an ODE solver crawling
+    with microscopic steps) is abandoned and the case counted as skipped ("timeout"): a
+    time limit is never a correctness signal.
+    """
+    import signal
+    import threading
+
+    use_alarm = threading.current_thread() is threading.main_thread() and SUT_TIMEOUT_S > 0
+    if use_alarm:
+        old_handler = signal.signal(signal.SIGALRM, _on_alarm)
+        signal.setitimer(signal.ITIMER_REAL, SUT_TIMEOUT_S)
     try:
         return fn(*args, **kwargs)
+    except _CallTimeout:
+        name = getattr(fn, "__name__", None) or getattr(getattr(fn, "func", None), "__name__", "call")
+        raise Skip(f"timeout: {name} exceeded {SUT_TIMEOUT_S:.0f}s") from None
     except allowed as e:  # noqa: B030
         raise Rejected(e) from None
     except (Violation, Skip, Rejected):
@@ -80,6 +109,10 @@ def sut(fn, *args, allowed=(), **kwargs):
         raise Violation(
             f"{name} raised {type(e).__name__}: {str(e)[:200]}{where}"
         ) from None
+    finally:
+        if use_alarm:
+            signal.setitimer(signal.ITIMER_REAL, 0)
+            signal.signal(signal.SIGALRM, old_handler)
 
 
 def require(cond, msg, residual=None):
